@@ -124,16 +124,20 @@ def check_window(prog, report):
     wl = loops[0]
     chain = None
     cvar = None
+    guards = []
     for n in ast.walk(wl):
         if isinstance(n, ast.For) and isinstance(n.target, ast.Name):
-            for s in n.body:
-                if isinstance(s, ast.If) and isinstance(
-                        s.test, ast.Compare) and any(
-                            isinstance(m, ast.Call) and isinstance(
-                                m.func, ast.Attribute)
-                            and m.func.attr == 'append'
-                            for m in ast.walk(s)):
-                    chain, cvar, cloop = s, n.target.id, n
+            found = [s for s in n.body if isinstance(s, ast.If)
+                     and isinstance(s.test, ast.Compare) and any(
+                         isinstance(m, ast.Call) and isinstance(
+                             m.func, ast.Attribute)
+                         and m.func.attr == 'append'
+                         for m in ast.walk(s))]
+            if found:
+                chain, cvar, cloop = found[0], n.target.id, n
+                # guard-clause style: further classifying ifs of the same
+                # loop, each ending in `continue`
+                guards = found[1:]
     if chain is None:
         raise AnalysisError('%s: classification chain not found' %
                             fi.where())
@@ -181,6 +185,14 @@ def check_window(prog, report):
         branches.append((node.test, apps, node))
         node = node.orelse[0] if len(node.orelse) == 1 and isinstance(
             node.orelse[0], ast.If) else None
+    for g in guards:
+        if g.orelse or len(branches) != 1 + guards.index(g):
+            raise AnalysisError('%s: mixed classification styles' %
+                                fi.where(g))
+        apps = [m for s in g.body for m in ast.walk(s)
+                if isinstance(m, ast.Call) and isinstance(
+                    m.func, ast.Attribute) and m.func.attr == 'append']
+        branches.append((g.test, apps, g))
     marks = {}
     expected = {
         'time': ht / (K * hx**sg),  # h_t / K >= h_x^sigma
@@ -225,7 +237,10 @@ def check_window(prog, report):
             v = n.value
             snap_ok = text(v) in ('list(self.leaf_elements)',
                                   'self.leaf_elements')
+    closing = {id(b_[2].body[-1]) for b_ in branches
+               if isinstance(b_[2].body[-1], ast.Continue)}
     skip = any(isinstance(m, (ast.Continue, ast.Break))
+               and id(m) not in closing
                for s in cloop.body for m in ast.walk(s))
     report.check(snap_ok and not skip, 'R-window',
                  'refine_grading classifies every leaf', fi.where(cloop),
@@ -262,6 +277,23 @@ def check_window(prog, report):
     okc = isinstance(wl.test, ast.BoolOp) and isinstance(
         wl.test.op, ast.Or) and sorted(
             text(v) for v in wl.test.values) == names
+    if not okc and isinstance(wl.test, ast.Constant) and wl.test.value:
+        # while True: classify; if nothing is marked: break; refine
+        from .absint import cond_dnf, fact_key
+        pos = wl.body.index(cloop) if cloop in wl.body else None
+        if pos is not None and pos + 1 < len(wl.body):
+            nxt = wl.body[pos + 1]
+            if isinstance(nxt, ast.If) and not nxt.orelse and len(
+                    nxt.body) == 1 and isinstance(nxt.body[0], ast.Break):
+                want = cond_dnf(ast.parse(
+                    ' and '.join('not %s' % n_ for n_ in names),
+                    mode='eval').body, {})
+                got = cond_dnf(nxt.test, {})
+                norm = lambda d: sorted(sorted(map(str, map(fact_key, c)))
+                                        for c in d)
+                okc = norm(got) == norm(want) and not any(
+                    isinstance(m, ast.Break) for s_ in wl.body
+                    if s_ is not nxt for m in ast.walk(s_))
     report.check(okc, 'R-window', 'refine_grading loop condition',
                  fi.where(wl),
                  'the sweep repeats while either list is non-empty, so on '
